@@ -1,6 +1,7 @@
 import atexit
 import dataclasses
 import inspect
+import math
 import shutil
 import tempfile
 import uuid
@@ -904,6 +905,18 @@ def create_zarr_arrays(lazy_zarr_arrays, allowed_mem, reserved_mem):
     )
 
 
+def _nchunks_when_complete(target) -> int:
+    """The value of ``nchunks_initialized`` when every chunk of ``target`` is present."""
+    shards = getattr(target, "shards", None)
+    if shards is None:
+        return target.nchunks
+    # for a sharded array Zarr counts all the chunks of every stored shard as initialized,
+    # including chunks of edge shards that lie outside the array, so count whole shards
+    chunks_per_shard = math.prod(s // c for s, c in zip(shards, target.chunks))
+    nshards = math.prod(-(-n // s) for n, s in zip(target.shape, shards))
+    return nshards * chunks_per_shard
+
+
 def already_computed(name, dag, nodes: dict[str, Any]) -> bool:
     """
     Return True if the array for a node doesn't have a pipeline to compute it,
@@ -929,7 +942,9 @@ def already_computed(name, dag, nodes: dict[str, Any]) -> bool:
                         f"Zarr array type {type(target)} does not support resume since it doesn't have a 'nchunks_initialized' property"
                     )
                 # this check can be expensive since it has to list the directory to find nchunks_initialized
-                if target.ndim == 0 or target.nchunks_initialized != target.nchunks:
+                if target.ndim == 0 or target.nchunks_initialized != _nchunks_when_complete(
+                    target
+                ):
                     return False
             except ArrayNotFoundError:
                 return False
